@@ -52,6 +52,84 @@ def obligations_exprs(ctx, h):
                                kind='post', meta={'replay': rp}))
 
 
+PY_EVAL_EXCEPTIONS = ['SyntaxError', 'TypeError', 'NameError', 'ZeroDivisionError', 'ValueError', 'OverflowError', 'AttributeError',
+                      'KeyError', 'IndexError', 'RuntimeError', 'ArithmeticError', 'AssertionError', 'UnicodeDecodeError']
+
+
+def obligations_arithmetic_eval(ctx, h):
+    """Arithmetic.eval (the only caller of Python's eval) against the contract every pass relies on: it returns an int or
+    raises AssemblerError with the line it was given - whatever eval does: eval may return a value of any type or raise ANY
+    exception (a representative of every builtin exception family Python's eval of an expression can raise is tried)"""
+    ctx.under_contract('Arithmetic.eval')
+    ctx.trust('A-EVAL: Python eval of an expression either returns a value or raises an exception derived from Exception')
+    Arithmetic = h.env.vars['Arithmetic']
+    outcomes = ['int', 'bool', 'float', 'str', 'none'] + PY_EVAL_EXCEPTIONS
+    for charlit in (False, True):
+        for oc in outcomes:
+            if charlit and oc not in ('int', 'TypeError', 'UnicodeDecodeError', 'str'):
+                continue
+
+            def body(run, oc=oc, charlit=charlit):
+                line = I.SObj(h.env.vars['Line'], {'file': I.Opaque('f'), 'number': I.Opaque('n'), 'contents': I.Opaque('c')})
+                run.notes['line'] = line
+
+                def external(it, qual, args, kw):
+                    if qual == 'eval':
+                        if oc == 'int':
+                            return run.dom.var('eval_result')
+                        if oc == 'bool':
+                            return True
+                        if oc == 'float':
+                            return 1.5
+                        if oc == 'str':
+                            return 'text'
+                        if oc == 'none':
+                            return None
+                        I.py_raise(oc, 'raised inside eval')
+                    return NotImplemented
+
+                def symstr_method(it, sv, name):
+                    if name in ('startswith', 'endswith'):
+                        return I.Builtin(name, lambda it2, a, k: charlit)
+                    return None
+
+                def symstr_index(it, sv, idx):
+                    return I.Opaque('charlit-body')
+
+                def opaque_call(it, f, args, kw):
+                    raise I.Unsupported('call of %r' % f)
+
+                def b_ord(it, c):
+                    if oc == 'int':
+                        return run.dom.var('ord_result')
+                    I.py_raise('TypeError', 'ord() expected a character')
+
+                def unescape(it, f, args, kwargs):
+                    if oc == 'UnicodeDecodeError':
+                        I.py_raise('UnicodeDecodeError', 'truncated escape')
+                    return I.Opaque('unescaped')
+                it = I.Interp(run, h.base_it.mods, hooks={'external': external, 'symstr_method': symstr_method, 'symstr_index': symstr_index,
+                                                          'ord': b_ord}, contracts={'unescape': unescape})
+                obj = it.instantiate(Arithmetic, [I.Sym('str', z3.Int('expr_text'))], {})
+                return it.call(it.getattr(obj, 'eval'), [run.dom.var('position'), I.Opaque('env'), line], {})
+            try:
+                paths = I.explore(body, I.IntDom)
+            except I.Unsupported as e:
+                ctx.undecide('asm.Arithmetic.eval/%s' % oc, str(e))
+                continue
+            for i, p in enumerate(paths):
+                if p.kind == 'return':
+                    ok = oc == 'int' and isinstance(p.value, I.Sym) and p.value.sort == 'int'
+                else:
+                    e = p.value
+                    ok = e.cls.name == 'AssemblerError' and e.fields.get('line') is p.notes.get('line')
+                ctx.add(Obligation('asm.Arithmetic.eval/%s/eval-%s#%d' % ('char-literal' if charlit else 'expression', oc, i), list(p.pc),
+                                   z3.BoolVal(bool(ok)), 'INT', func='asm.Arithmetic.eval', kind='raises', cover=False,
+                                   meta={'replay': ('fault_bank', {'exc': 'raw'}), 'props': ['C15', 'C11', 'C08'],
+                                         'what': 'Arithmetic.eval lets %s escape / returns a non-integer when Python eval %s' % (
+                                             p.exc_name if p.kind == 'raise' else type(p.value).__name__, 'returns ' + oc if oc in ('int', 'bool', 'float', 'str', 'none') else 'raises ' + oc)}))
+
+
 def replay_expr_eval(ctx, d, model):
     from pyvc.real import real
     r = real()
@@ -79,3 +157,4 @@ _R.register('expr_eval', 'contracts.exprs:replay_expr_eval')
 def task_exprs(ctx):
     h = Harness(ctx)
     obligations_exprs(ctx, h)
+    obligations_arithmetic_eval(ctx, h)
